@@ -56,6 +56,7 @@ type run struct {
 	eager  bool
 	budget time.Duration
 	diffK  int
+	liveN  int
 	cap    int
 	desc   bool
 	maxV   uint64
@@ -82,6 +83,16 @@ func plan(prop, tier string) []run {
 	var r []run
 	add := func(cfg, menu string, d int, budget time.Duration) {
 		r = append(r, run{cfg: cfg, menu: menu, prims: menus[menu], d: d, budget: budget, maxV: 2})
+	}
+	if prop == "C05" {
+		n, cap := 400, 4000
+		if !q {
+			n, cap = 6000, 60000
+		}
+		for _, c := range [][2]string{{"K1", "M1"}, {"K2", "M2"}, {"K3", "M3"}, {"K1", "M4"}} {
+			r = append(r, run{cfg: c[0], menu: c[1], prims: menus[c[1]], budget: 60 * time.Second, maxV: 2, liveN: n, cap: cap})
+		}
+		return r
 	}
 	if prop == "C08" || prop == "C07" {
 		k := 400
@@ -162,6 +173,7 @@ func main() {
 	var samples []interface{}
 	states, trans, validated, real := 0, 0, 0, 0
 	diffSteps := 0
+	liveExt := 0
 	exhaustiveAll := true
 	violations := 0
 	outcomes := map[string]bool{}
@@ -179,6 +191,8 @@ func main() {
 		cfg.Prims = prims(rn.prims)
 		cfg.D = rn.d
 		cfg.Eager = rn.eager
+		cfg.C11 = *prop == "C11" || *prop == "ALL"
+		cfg.Cap = rn.cap
 		cfg.Deadline = time.Now().Add(time.Duration(float64(rn.budget) * *budgetMul))
 		cfg.Report = map[string]bool{*prop: true}
 		maxFound := 1
@@ -226,6 +240,32 @@ func main() {
 		if len(samples) < 3 && e.States > 1 {
 			samples = append(samples, e.SampleTrace())
 		}
+		// timed extension (C05): bounded liveness from every explored state
+		if rn.liveN > 0 {
+			t1 := time.Now()
+			strategies := []string{"silent", "helpful", "spoiler", "equivocator", "prepare-only"}
+			lr := e.Liveness(rn.liveN, strategies, *tier != "quick")
+			liveExt += lr.Extensions
+			info["liveness"] = map[string]interface{}{"states_extended": lr.States - lr.Skipped, "states_skipped_precondition": lr.Skipped, "extensions": lr.Extensions, "real_steps": lr.Steps, "max_view_reached": lr.MaxViews, "strategies": strategies, "wall_s": time.Since(t1).Seconds()}
+			if *verbose {
+				fmt.Fprintf(os.Stderr, "  liveness: states=%d skipped=%d extensions=%d steps=%d maxview=%d found=%d %.1fs\n", lr.States, lr.Skipped, lr.Extensions, lr.Steps, lr.MaxViews, len(lr.Found), time.Since(t1).Seconds())
+			}
+			for _, f := range lr.Found {
+				rf := e.Render(pmc.Found{V: f.V, Trace: e.TraceTo(f.State), State: f.State})
+				o := f.Opt
+				rf.Live, rf.LiveLog = &o, f.Log
+				path := ev.ReplayPath(*prop, fmt.Sprintf("%s-%s-live-%s", rn.cfg, rn.menu, sanitize(f.V.Clause)))
+				pmc.WriteReplay(path, rf)
+				if doReplay(path, false) == 1 {
+					violations++
+					printed = append(printed, fmt.Sprintf("VIOLATION property=%s replay=%s", *prop, path))
+					fmt.Fprintf(os.Stderr, "  %s/%s liveness: %s: %s (prefix %d events, %+v)\n", rn.cfg, rn.menu, f.V.Clause, f.V.Detail, len(rf.Events), f.Opt)
+				} else {
+					fmt.Fprintf(os.Stderr, "HARNESS ERROR: liveness violation did not reproduce on replay (%s)\n", path)
+					os.Exit(2)
+				}
+			}
+		}
 		// mutation differential (C07, C08): every explored local state x the mutation alphabet
 		if rn.diffK > 0 {
 			t1 := time.Now()
@@ -270,6 +310,10 @@ func main() {
 	evd.Coverage["exhaustive"] = exhaustiveAll
 	evd.Coverage["runs"] = runs
 	evd.Coverage["real_local_steps"] = real
+	if liveExt > 0 {
+		evd.Coverage["liveness_extensions"] = liveExt
+		evd.Coverage["evaluations"] = liveExt
+	}
 	if diffSteps > 0 {
 		evd.Coverage["differential_local_steps"] = diffSteps
 		evd.Coverage["evaluations"] = diffSteps
@@ -307,6 +351,27 @@ func doReplay(path string, print bool) int {
 	}
 	cfg := config(rf.Config)
 	cfg.Prims = map[string]bool{}
+	if rf.Live != nil {
+		ok1, why1, log1 := pmc.ReplayLive(cfg, rf)
+		ok2, why2, _ := pmc.ReplayLive(cfg, rf)
+		if ok1 != ok2 || why1 != why2 {
+			fmt.Fprintln(os.Stderr, "HARNESS ERROR: liveness replay is not deterministic")
+			os.Exit(2)
+		}
+		if print {
+			for _, l := range log1 {
+				fmt.Println(l)
+			}
+			fmt.Println("result:", ok1, why1)
+			if !ok1 {
+				fmt.Printf("VIOLATION property=%s replay=%s\n", rf.Property, path)
+			}
+		}
+		if !ok1 {
+			return 1
+		}
+		return 0
+	}
 	v1, l1 := pmc.Replay(cfg, rf)
 	v2, l2 := pmc.Replay(cfg, rf)
 	if fmt.Sprint(v1, l1) != fmt.Sprint(v2, l2) {
